@@ -277,7 +277,25 @@ impl AutosarModel {
 
                 let (_, indices_a) = parent_type.find_sub_element(elem_a.element_name(), u32::MAX).unwrap();
                 let (_, indices_b) = parent_type.find_sub_element(elem_b.element_name(), u32::MAX).unwrap();
-                if indices_a < indices_b {
+                // The same identifiable elements can be ordered differently on both sides, e.g. [SYSTEM, CAN-CLUSTER] and
+                // [CAN-CLUSTER, SYSTEM]. An element that has a counterpart on the other side must be merged with it
+                // instead of being treated as unique, otherwise it would exist twice in the merged model.
+                let counterpart = |parent: &Element, elem: &Element| {
+                    if elem.is_identifiable() {
+                        parent
+                            .sub_elements()
+                            .find(|e| e.element_name() == elem.element_name() && e.item_name() == elem.item_name())
+                    } else {
+                        None
+                    }
+                };
+                if let Some(sibling_b) = counterpart(parent_b, elem_a) {
+                    // elem_a also exists on side b at a different position: merge them and advance only a
+                    MergeAction::MergeUnequal(sibling_b)
+                } else if counterpart(parent_a, elem_b).is_some() {
+                    // elem_a is unique in a, but elem_b also exists further along in a: advance only a
+                    MergeAction::AOnly
+                } else if indices_a < indices_b {
                     // elem_a comes before elem_b, advance only a
                     // a: <parent> | <a = child 1> <child 2>
                     // b: <parent> |               <b = child 2>
